@@ -29,7 +29,9 @@ func (cd ctorDef) Key() string {
 	return cd.Name
 }
 
-var byteSizes = []int{1, 2, 4, 8, -1, 0, 3, 16}
+// valid widths, ordinary invalid ones, and invalid ones congruent to a valid width modulo 2^8, 2^16
+// and 2^32 (a size validated after it was narrowed would let those through)
+var byteSizes = []int{1, 2, 4, 8, -1, 0, 3, 16, 256 + 4, 1<<16 + 8, 1<<32 + 1, 1<<32 + 2, 1<<32 + 4, 1<<32 + 8, 4 - 1<<32, 5<<32 + 8, -8}
 
 // Ctors lists every constructor x byte size, valid sizes first.
 func Ctors() []ctorDef {
